@@ -124,6 +124,17 @@ def d3_retry_spacing(ctx):
         st = field_stores(ra, RS, "last_reconnect_attempt_ms")
         ok = len(st) == 1 and pa.fa.val_rvalue(st[0][2]["rv"], (st[0][0], st[0][1])) == ("param", 3) and pa.pc_at(st[0][0], st[0][1]) == pa.bdd.TRUE
         ctx.chk.ob("D3", "every attempt is stamped with the current time", ok, "", key="D3:attempt-stamped")
+    # the spacing rests on the stamp: it is only ever set to a current time (a store of 0 would read as "never tried" and allow an
+    # immediate retry), and only by the attempt recorder and the full reset
+    ctx.WHO_WRITES("D3", RS, "last_reconnect_attempt_ms", {RS + "::record_attempt", CONN + "::reset_for_reconnect"}, floor=2,
+                   allow_agg_in={"<" + RS + " as core::default::Default>::default", "<" + RS + " as core::clone::Clone>::clone", CONN + "::new_registering"})
+    for a in ctx.eff.writers_of(RS, "last_reconnect_attempt_ms", ("store",)):
+        fa_ = ctx.fa(a.fn)
+        st_ = a.fn.blocks[a.bb]["stmts"][a.si]
+        v_ = fa_.val_rvalue(st_["rv"], (a.bb, a.si))
+        okv = v_[0] == "param" or (v_[0] not in ("const",) and any(x[0] == "param" for x in walk(v_)))
+        ctx.chk.ob("D3", "%s stores a caller-supplied time into the retry stamp (never a constant)" % sname(a.fn.stable), okv, "stored %s" % show(v_, a.fn.names)[:80],
+                   key="D3:retry-stamp-is-a-time:%s" % a.fn.stable, loc=a.loc)
     hk = ctx.fn(HKC, "D3")
     if hk:
         cfg = ctx.cfg(hk)
